@@ -154,13 +154,15 @@ func (g *GcsEmu) Handler(w http.ResponseWriter, r *http.Request) {
 			g.handleGcsNewBucket(ctx, w, r, conds)
 		} else if object == "" {
 			g.handleGcsNewObject(ctx, baseUrl, w, r, bucket, conds)
+		} else if r.Form.Get("upload_id") != "" {
+			// A chunk of a resumable upload; checked first because the object name may itself contain
+			// "/compose" or "/rewriteTo/".
+			g.handleGcsNewObjectResume(ctx, baseUrl, w, r, r.Form.Get("upload_id"))
 		} else if strings.Contains(object, "/compose") {
 			// TODO: enforce other conditions outside of generation
 			g.handleGcsCompose(ctx, baseUrl, w, r, bucket, object, conds)
 		} else if strings.Contains(object, "/rewriteTo/") {
 			g.handleGcsCopy(ctx, baseUrl, w, bucket, object)
-		} else if r.Form.Get("upload_id") != "" {
-			g.handleGcsNewObjectResume(ctx, baseUrl, w, r, r.Form.Get("upload_id"))
 		} else {
 			// unsupported method, or maybe should never happen
 			g.gapiError(w, http.StatusBadRequest, fmt.Sprintf("unsupported POST request: %v\n%s", r.URL, maybeNotImplementedErrorMsg))
